@@ -97,27 +97,43 @@ def r1(ctx):
               "the verified bytes are the decoded bytes")
     # the verifying key
     recv = v.func.value
-    if not isinstance(recv, ast.Name):
-        ctx.undecided("C02.R1", de, "verify receiver shape %s" % norm(recv))
     cc = CondCtx(ctx.folder, de.module, de.cls)
-    pinned_none = Lit("set", "kwargs['server_public_key']", frozenset([repr(None)]), True, "")
-    kdefs = du.reaching(recv.id, V.id)
+    from .common import node_lits_sym, sym_expr
+    # the alternatives of the receiver's value: a name stands for each of its reaching definitions (under the conditions of the
+    # defining statement), a conditional expression for its two arms (under the test and its negation)
+    alts = []
+
+    def alternatives(e, nid, lits, depth=0):
+        if depth > 6:
+            ctx.undecided("C02.R1", de, "verify receiver shape %s" % norm(recv))
+        if isinstance(e, ast.IfExp):
+            t = sym_expr(de, e.test, cfg.nodes[nid])
+            alternatives(e.body, nid, lits + cc.literal(t, True), depth + 1)
+            alternatives(e.orelse, nid, lits + cc.literal(t, False), depth + 1)
+            return
+        if isinstance(e, ast.Name):
+            for (d, val, how) in du.reaching(e.id, nid):
+                if d == "ENTRY":
+                    alts.append((None, lits, 0))
+                elif how != "assign" or not isinstance(val, ast.expr):
+                    alts.append(("<%s %s>" % (how, e.id), lits + node_lits_sym(de, cfg, d, cc), cfg.nodes[d].lineno))
+                else:
+                    alternatives(val, d, lits + node_lits_sym(de, cfg, d, cc), depth + 1)
+            return
+        alts.append((norm(e), lits, cfg.nodes[nid].lineno))
+    alternatives(recv, V.id, [])
     n_pinned = 0
-    for (nid, val, how) in kdefs:
-        if nid == "ENTRY":
+    for (txt, lits, line) in alts:
+        if txt is None:
             ctx.violated("C02.R1", de, "verifying key unbound", "verify key may be unbound")
-            continue
-        txt = norm(val) if isinstance(val, ast.AST) else str(val)
-        if txt == "kwargs['server_public_key']":
+        elif txt == "kwargs['server_public_key']":
             n_pinned += 1
             ctx.holds("C02.R1", de, "verify key := pinned key", "the configured server public key verifies the hello")
         else:
-            from .common import node_lits_sym
-            lits = node_lits_sym(de, cfg, nid, cc)
             ok = not satisfiable(lits + [Lit("set", "kwargs['server_public_key']", frozenset([repr(None)]), False, "")])
             ctx.check(ok, "C02.R1", de, "verify key := %s only when no key is pinned" % txt,
                       "a key carried in the message may verify it only when the client has no pinned key",
-                      witness={"conditions": [repr(l) for l in lits]}, line=cfg.nodes[nid].lineno)
+                      witness={"conditions": [repr(l) for l in lits]}, line=line)
     ctx.check(n_pinned >= 1, "C02.R1", de, "pinned key reaches verify", "the pinned key is used when configured")
     # serialize side: signer and signed bytes
     se = ctx.fn(SH + ".serialize")
